@@ -1071,3 +1071,164 @@ Proof.
     lra.
   - split; lra.
 Qed.
+
+(* =================================================================================================
+   E. which steps write the state file, the variables' files and the biases' files
+   ================================================================================================= *)
+Lemma NoDup_app_last {A} (l : list A) (a : A) : NoDup l -> ~ In a l -> NoDup (l ++ [a]).
+Proof.
+  induction l as [|b l IH]; intros Hnd Hn; cbn [app].
+  - constructor; [intros []|constructor].
+  - inversion Hnd as [|? ? Hb Hl]; subst. constructor.
+    + intros Hin. apply in_app_or in Hin. destruct Hin as [Hin|[Hin|[]]]; [contradiction|]. apply Hn. left. symmetry. exact Hin.
+    + apply IH; [exact Hl|]. intros Hin. apply Hn. right. exact Hin.
+Qed.
+
+Section OutputSchedule.
+  Local Open Scope Z_scope.
+
+  Lemma writes_of_app : forall k l1 l2, writes_of k (l1 ++ l2) = writes_of k l1 ++ writes_of k l2.
+  Proof. intros. unfold writes_of. apply flat_map_app. Qed.
+
+  Lemma writes_of_bias_list_other : forall k it (g : Z * Z -> bool) l,
+    (forall b, k <> FBias b) ->
+    writes_of k (map (fun f => (it, f)) (flat_map (fun bf : Z * Z => if g bf then [FBias (fst bf)] else []) l)) = [].
+  Proof.
+    intros k it g l Hk. induction l as [|bf l IH]; [reflexivity|]. cbn [flat_map]. rewrite map_app, writes_of_app, IH, app_nil_r.
+    destruct (g bf); [|reflexivity]. cbn [map writes_of flat_map snd fst app].
+    destruct k; cbn [ofile_eqb]; try reflexivity. exfalso. apply (Hk b). reflexivity.
+  Qed.
+
+  Lemma writes_of_bias_list : forall b f it (g : Z * Z -> bool) l,
+    NoDup (map fst l) -> In (b, f) l ->
+    writes_of (FBias b) (map (fun x => (it, x)) (flat_map (fun bf : Z * Z => if g bf then [FBias (fst bf)] else []) l)) =
+    if g (b, f) then [it] else [].
+  Proof.
+    intros b f it g l. induction l as [|bf l IH]; intros Hnd Hin; [contradiction|].
+    cbn [map] in Hnd. inversion Hnd as [|? ? Hnot Hnd']; subst.
+    cbn [flat_map]. rewrite map_app, writes_of_app.
+    destruct Hin as [Heq|Hin].
+    - subst bf. cbn [fst] in Hnot.
+      assert (Hrest : writes_of (FBias b) (map (fun x => (it, x)) (flat_map (fun bf : Z * Z => if g bf then [FBias (fst bf)] else []) l)) = []).
+      { clear IH Hnd Hnd'. induction l as [|bf' l IHl]; [reflexivity|]. cbn [flat_map]. rewrite map_app, writes_of_app.
+        cbn [map] in Hnot. rewrite IHl by (intros H; apply Hnot; right; exact H). rewrite app_nil_r.
+        destruct (g bf'); [|reflexivity]. cbn [map writes_of flat_map snd fst app ofile_eqb].
+        destruct (fst bf' =? b) eqn:E; [|reflexivity]. apply Z.eqb_eq in E. exfalso. apply Hnot. left. exact E. }
+      rewrite Hrest, app_nil_r. destruct (g (b, f)); [|reflexivity].
+      cbn [map writes_of flat_map snd fst app ofile_eqb]. rewrite Z.eqb_refl. reflexivity.
+    - rewrite (IH Hnd' Hin).
+      assert (Hne : fst bf <> b).
+      { intros Heq. apply Hnot. rewrite Heq. change b with (fst (b, f)). apply in_map. exact Hin. }
+      destruct (g bf); [|reflexivity]. cbn [map writes_of flat_map snd fst app ofile_eqb].
+      destruct (fst bf =? b) eqn:E; [apply Z.eqb_eq in E; contradiction|reflexivity].
+  Qed.
+
+  (* the frequency that governs file k *)
+  Definition governs (c : ocfg) (k : ofile) (f : Z) : Prop :=
+    match k with
+    | FState => False
+    | FColvar => f = oc_restart_freq c
+    | FBias b => In (b, f) (oc_biases c)
+    end.
+
+  Lemma writes_calc : forall c k f it, NoDup (map fst (oc_biases c)) -> governs c k f ->
+    writes_of k (out_event c (OCalc it)) = if at_freq c f it then [it] else [].
+  Proof.
+    intros c k f it Hnd Hg. unfold out_event, out_calc. rewrite map_app, writes_of_app.
+    destruct k as [| |b]; cbn [governs] in Hg; [contradiction| |].
+    - subst f. rewrite (writes_of_bias_list_other FColvar it (fun bf => at_freq c (snd bf) it)) by discriminate. rewrite app_nil_r.
+      destruct (at_freq c (oc_restart_freq c) it); reflexivity.
+    - rewrite (writes_of_bias_list b f it (fun bf => at_freq c (snd bf) it) _ Hnd Hg). cbn [snd].
+      destruct (at_freq c (oc_restart_freq c) it); reflexivity.
+  Qed.
+
+  Lemma writes_end : forall c k f it, NoDup (map fst (oc_biases c)) -> governs c k f ->
+    writes_of k (out_event c (OEnd it)) = if at_freq c f it then [] else [it].
+  Proof.
+    intros c k f it Hnd Hg. unfold out_event, out_end. cbn [map]. rewrite map_app.
+    change ((it, FState) :: ?a ++ ?b) with ([(it, FState)] ++ a ++ b). rewrite !writes_of_app.
+    destruct k as [| |b]; cbn [governs] in Hg; [contradiction| |].
+    - subst f. rewrite (writes_of_bias_list_other FColvar it (fun bf => negb (at_freq c (snd bf) it))) by discriminate. rewrite app_nil_r.
+      destruct (at_freq c (oc_restart_freq c) it); reflexivity.
+    - rewrite (writes_of_bias_list b f it (fun bf => negb (at_freq c (snd bf) it)) (oc_biases c) Hnd Hg).
+      + cbn [snd]. destruct (at_freq c (oc_restart_freq c) it); destruct (at_freq c f it); reflexivity.
+  Qed.
+
+  Lemma writes_run_calcs : forall c k f l, NoDup (map fst (oc_biases c)) -> governs c k f ->
+    writes_of k (out_run c (map OCalc l)) = filter (at_freq c f) l.
+  Proof.
+    intros c k f l Hnd Hg. induction l as [|it l IH]; [reflexivity|].
+    unfold out_run in *. cbn [map flat_map filter]. rewrite writes_of_app, IH, (writes_calc c k f it Hnd Hg).
+    destruct (at_freq c f it); reflexivity.
+  Qed.
+
+  (* a run over the steps s0 .. s0+n followed by the end of the run *)
+  Lemma output_steps : forall c k f s0 n, NoDup (map fst (oc_biases c)) -> governs c k f ->
+    let last := s0 + Z.of_nat n in
+    writes_of k (out_run c (map OCalc (run_steps s0 (S n)) ++ [OEnd last])) =
+    filter (at_freq c f) (run_steps s0 (S n)) ++ (if at_freq c f last then [] else [last]).
+  Proof.
+    intros c k f s0 n Hnd Hg last. unfold out_run. rewrite flat_map_app, writes_of_app.
+    change (flat_map (out_event c) (map OCalc (run_steps s0 (S n)))) with (out_run c (map OCalc (run_steps s0 (S n)))).
+    rewrite (writes_run_calcs c k f _ Hnd Hg). f_equal.
+    cbn [flat_map]. rewrite app_nil_r. apply (writes_end c k f last Hnd Hg).
+  Qed.
+
+  Lemma run_steps_last : forall s0 n, In (s0 + Z.of_nat n) (run_steps s0 (S n)).
+  Proof. intros. unfold run_steps. apply in_map_iff. exists n. split; [reflexivity|]. apply in_seq. lia. Qed.
+
+  (* the file is written at most once per step, the last write is at the last step of the run, and the writes are the
+     multiples of the governing frequency after the first step of the run segment, plus the last step *)
+  Lemma output_final_and_once : forall c k f s0 n, NoDup (map fst (oc_biases c)) -> governs c k f ->
+    let last := s0 + Z.of_nat n in
+    let w := writes_of k (out_run c (map OCalc (run_steps s0 (S n)) ++ [OEnd last])) in
+    NoDup w /\ List.last w 0 = last /\
+    forall it, In it w <-> (it = last \/ (s0 <= it <= last /\ at_freq c f it = true)).
+  Proof.
+    intros c k f s0 n Hnd Hg. cbn zeta.
+    pose proof (output_steps c k f s0 n Hnd Hg) as Hos. cbn zeta in Hos. rewrite Hos. clear Hos.
+    set (last := s0 + Z.of_nat n).
+    pose proof (run_steps_nodup s0 (S n)) as Hnd2.
+    pose proof (run_steps_last s0 n) as Hlast. fold last in Hlast.
+    assert (Hrange : forall it, In it (run_steps s0 (S n)) <-> s0 <= it <= last).
+    { intros it. unfold run_steps. rewrite in_map_iff. split.
+      - intros [i [Hi Hin]]. apply in_seq in Hin. unfold last. lia.
+      - intros Hr. exists (Z.to_nat (it - s0)). split; [lia|]. apply in_seq. unfold last in Hr. lia. }
+    (* the last step is the last element of the run *)
+    assert (Hsplit : run_steps s0 (S n) = run_steps s0 n ++ [last]).
+    { unfold run_steps. rewrite seq_S, map_app. reflexivity. }
+    destruct (at_freq c f last) eqn:E.
+    - rewrite app_nil_r. repeat split.
+      + apply NoDup_filter. exact Hnd2.
+      + rewrite Hsplit, filter_app. cbn [filter]. rewrite E. apply last_last.
+      + intros Hin. apply filter_In in Hin. destruct Hin as [Hin Hf]. right. split; [apply Hrange; exact Hin|exact Hf].
+      + intros [->|[Hr Hf]]; apply filter_In; split; try assumption. apply Hrange. exact Hr.
+    - repeat split.
+      + apply NoDup_app_last; [apply NoDup_filter; exact Hnd2|].
+        intros Hin. apply filter_In in Hin. destruct Hin as [_ Hf]. congruence.
+      + apply last_last.
+      + intros Hin. apply in_app_or in Hin. destruct Hin as [Hin|[Hin|[]]].
+        * apply filter_In in Hin. destruct Hin as [Hin Hf]. right. split; [apply Hrange; exact Hin|exact Hf].
+        * left. symmetry. exact Hin.
+      + intros [->|[Hr Hf]]; apply in_or_app.
+        * right. left. reflexivity.
+        * left. apply filter_In. split; [apply Hrange; exact Hr|exact Hf].
+  Qed.
+
+  (* the state file: written by calc() at the restart frequency and always at the end of the run; each write stamps
+     the step at which it happens (writes_of returns those steps), so the last one is the last step *)
+  Lemma state_file_steps : forall c s0 n,
+    let last := s0 + Z.of_nat n in
+    writes_of FState (out_run c (map OCalc (run_steps s0 (S n)) ++ [OEnd last])) =
+    filter (at_freq c (oc_restart_freq c)) (run_steps s0 (S n)) ++ [last].
+  Proof.
+    intros c s0 n last. unfold out_run. rewrite flat_map_app, writes_of_app. f_equal.
+    - induction (run_steps s0 (S n)) as [|it l IH]; [reflexivity|]. cbn [map flat_map filter]. rewrite writes_of_app, IH.
+      unfold out_event, out_calc. rewrite map_app, writes_of_app, (writes_of_bias_list_other FState it (fun bf => at_freq c (snd bf) it)) by discriminate. rewrite app_nil_r.
+      destruct (at_freq c (oc_restart_freq c) it); reflexivity.
+    - cbn [flat_map]. rewrite app_nil_r. unfold out_event, out_end. cbn [map]. rewrite map_app.
+      change ((last, FState) :: ?a ++ ?b) with ([(last, FState)] ++ a ++ b). rewrite !writes_of_app.
+      rewrite (writes_of_bias_list_other FState last (fun bf => negb (at_freq c (snd bf) last))) by discriminate.
+      destruct (at_freq c (oc_restart_freq c) last); reflexivity.
+  Qed.
+End OutputSchedule.
